@@ -65,6 +65,7 @@ macro_rules! compare_pair {
 }
 
 compare_pair!(c39_q_compare_int32_int32, i32, Variant::Int32, i32, Variant::Int32, |a, b| true, |x, y| x < y, |p, q| p == q);
+compare_pair!(c39_q_compare_int64_int16, i64, Variant::Int64, i16, Variant::Int16, |a, b| true, |x, y| x < y as i64, |p, q| p == q as i64);
 compare_pair!(c39_q_compare_int16_int64, i16, Variant::Int16, i64, Variant::Int64, |a, b| true, |x, y| (x as i64) < y, |p, q| p as i64 == q);
 // (pairs whose conversion succeeds for some values and fails for others — UInt32/Int32, Int64/UInt64 — make the
 // converted Variant's discriminant symbolic and ended in solver errors after 6 min; the failing-conversion behaviour is
